@@ -91,6 +91,87 @@ type snap struct {
 	returnedBy map[int]bool
 	firstBy    *gram.Expr
 	firstPos   int
+	tree       *snapNode // structural copy, blame mode only
+}
+
+// snapNode is a structural copy of a returned object as it read when it was returned.
+type snapNode struct {
+	id     any // identity of the live object (nil for immutable values)
+	list   bool
+	empty  bool
+	text   string // token, value and start position
+	end    int
+	kids   []*snapNode
+	listID any
+}
+
+func copyTree(n parsley.Node) *snapNode {
+	sn := &snapNode{}
+	if k, ok := identity(n); ok {
+		sn.id = k
+	}
+	switch v := n.(type) {
+	case nil:
+		sn.text = "nil"
+	case ast.NodeList:
+		sn.list = true
+		for _, el := range v {
+			sn.kids = append(sn.kids, copyTree(el))
+		}
+	case ast.EmptyNode:
+		sn.empty, sn.text, sn.end = true, fmt.Sprintf("e@%d", int(v.Pos())), int(v.ReaderPos())
+	case parsley.NonTerminalNode:
+		sn.text, sn.end = fmt.Sprintf("%s@%d", v.Token(), int(v.Pos())), int(v.ReaderPos())
+		for _, k := range v.Children() {
+			sn.kids = append(sn.kids, copyTree(k))
+		}
+	case parsley.LiteralNode:
+		sn.text, sn.end = fmt.Sprintf("%s=%v@%d", v.Token(), v.Value(), int(v.Pos())), int(v.ReaderPos())
+	default:
+		sn.text, sn.end = fmt.Sprintf("%s@%d", n.Token(), int(n.Pos())), int(n.ReaderPos())
+	}
+	return sn
+}
+
+// sameExceptEndsOf: does live read like the copy sn apart from the END positions of the objects in top (and the
+// position of empty-match values stored directly in a list of top, which are replaced, not moved)? This is the exact
+// shape of the recorded finding "RightTrim moves the end of the node(s) its operand returned"; a difference anywhere
+// else — in a child of such a node, say — is a different violation.
+func sameExceptEndsOf(sn *snapNode, live parsley.Node, top map[any]bool, inTopList bool) bool {
+	lk, hasID := identity(live)
+	isTop := hasID && top[lk]
+	switch v := live.(type) {
+	case ast.NodeList:
+		if !sn.list || len(v) != len(sn.kids) {
+			return false
+		}
+		for i, el := range v {
+			if !sameExceptEndsOf(sn.kids[i], el, top, isTop) {
+				return false
+			}
+		}
+		return true
+	case ast.EmptyNode:
+		return sn.empty && (inTopList || (sn.text == fmt.Sprintf("e@%d", int(v.Pos())) && sn.end == int(v.ReaderPos())))
+	}
+	if sn.list || sn.empty {
+		return false
+	}
+	cur := copyTree(live)
+	if cur.text != sn.text || len(cur.kids) != len(sn.kids) {
+		return false
+	}
+	if cur.end != sn.end && !isTop {
+		return false
+	}
+	if nt, ok := live.(parsley.NonTerminalNode); ok {
+		for i, k := range nt.Children() {
+			if !sameExceptEndsOf(sn.kids[i], k, top, false) {
+				return false
+			}
+		}
+	}
+	return true
 }
 
 type listKey struct {
@@ -153,13 +234,14 @@ type frame struct {
 }
 
 type c07Monitor struct {
-	snaps  []*snap
-	index  map[any]int
-	blame  bool
-	stack  []*frame
-	found  *c07Finding
-	checks int64
-	rehits int64
+	snaps   []*snap
+	index   map[any]int
+	blame   bool
+	stack   []*frame
+	found   *c07Finding
+	foundAt *frame
+	checks  int64
+	rehits  int64
 }
 
 type c07Finding struct {
@@ -175,7 +257,7 @@ func (m *c07Monitor) reset(blame bool) {
 	m.index = map[any]int{}
 	m.blame = blame
 	m.stack = m.stack[:0]
-	m.found = nil
+	m.found, m.foundAt = nil, nil
 }
 
 func renderFull(n parsley.Node) string { return impl.Render(n, 1) }
@@ -186,9 +268,10 @@ func (m *c07Monitor) checkOne(s *snap, at *frame) bool {
 	if now == s.full {
 		return true
 	}
-	if m.found != nil {
+	if m.found != nil && (m.foundAt != at || at == nil || m.found.relation != "operand-result") {
 		return false
 	}
+	// (a finding of the recorded shape made at this same observation point may still be replaced by one that is not)
 	var sb strings.Builder
 	renderNoEnd(&sb, s.live)
 	field := "content"
@@ -205,9 +288,31 @@ func (m *c07Monitor) checkOne(s *snap, at *frame) bool {
 				f.relation = "operand-result"
 			}
 		}
+		if f.relation == "operand-result" && s.tree != nil {
+			top := map[any]bool{}
+			for _, cr := range at.childReturns {
+				if k, ok := identity(cr); ok {
+					top[k] = true
+				}
+				if l, isList := cr.(ast.NodeList); isList {
+					for _, el := range l {
+						if k, ok := identity(el); ok {
+							top[k] = true
+						}
+					}
+				}
+			}
+			if !sameExceptEndsOf(s.tree, s.live, top, false) {
+				// more than the ends of the operand's own result nodes changed: something BELOW them was rewritten
+				f.relation = "below-operand-result"
+			}
+		}
 	}
-	m.found = f
-	return false
+	if m.found != nil && f.relation == "operand-result" {
+		return true // nothing worse than what is already recorded for this observation point: keep scanning
+	}
+	m.found, m.foundAt = f, at
+	return f.relation == "operand-result" // of the recorded shape: keep scanning this observation point for something else
 }
 
 // changedWithin: does the value root, or one of the elements of the list root, now read differently from its snapshot?
@@ -306,7 +411,11 @@ func (m *c07Monitor) record(e *gram.Expr, pos int, node parsley.Node, fr *frame)
 	var sb strings.Builder
 	renderNoEnd(&sb, node)
 	m.index[k] = len(m.snaps)
-	m.snaps = append(m.snaps, &snap{live: node, full: renderFull(node), noEnd: sb.String(), returnedBy: map[int]bool{e.ID: true}, firstBy: e, firstPos: pos})
+	sn := &snap{live: node, full: renderFull(node), noEnd: sb.String(), returnedBy: map[int]bool{e.ID: true}, firstBy: e, firstPos: pos}
+	if m.blame {
+		sn.tree = copyTree(node)
+	}
+	m.snaps = append(m.snaps, sn)
 }
 
 func c07Grammar(res *explore.Result, g *gram.Grammar, inputs [][]byte, subsets, verbose bool) {
